@@ -32,6 +32,8 @@ def run(ctx):
     rule_route(F, R)
     from . import exhaust
     exhaust.report_query(F, R, "C19.owned", ctx.tier, "owned", 10000, 4000)
+    from . import c08
+    c08.rule_partition(F, R)   # Display writes the stored expression: after a partition it must be the text of the remaining tokens
 
 
 def canon(v):
